@@ -4,6 +4,7 @@ pair by pair (all 17 × 17 atomic types, all six operators), outside the finding
 -/
 import EPV.Lemmas.CompareBasic
 import EPV.Lemmas.CompareFindings
+set_option linter.unusedSimpArgs false
 namespace EPV.Cmp
 open EPV.CmpSpec EPV.CmpFind
 
@@ -180,13 +181,12 @@ theorem durCmp4_dtd (op : Op) (s t : Int) : durCmp4 op (0, s) (0, t) = iCmp op s
 
 set_option maxHeartbeats 2000000 in
 /-- VALUE COMPARISON vs SPECIFICATION, every pair of atoms (no untypedAtomic: get_atomized_operand has
-turned it into a string), every operator, every 2.0+ mode: outside the triggers of F07 (tolerance),
-F07-promotion and F07-qname, and unless an integer overflows the double range, the code's lattice +
+turned it into a string), every operator, every 2.0+ mode: outside the triggers of F07 (tolerance) and
+F07-promotion, and unless an integer overflows the double range, the code's lattice +
 Python operator gives exactly the outcome of XPath 3.1 §3.7.1 — the same boolean, or XPTY0004 on
 exactly the incomparable type pairs. -/
 theorem valuePair_conforms (m : Mode) (op : Op) (a b : Atom) (hua : isUA a = false) (hub : isUA b = false)
     (h1 : trigTol true op a b = false) (h2 : trigPromotion true a b = false)
-    (h3 : trigQName op a b = false)
     (h4 : ∀ e, getDouble a ≠ .error e) (h5 : ∀ e, getDouble b ≠ .error e)
     (h6 : ymdOrd op a b = false) :
     valuePair m op a b = valueOp (binOrdered m) op a b := by
@@ -199,7 +199,7 @@ theorem valuePair_conforms (m : Mode) (op : Op) (a b : Atom) (hua : isUA a = fal
   | none =>
     cases a <;> simp [numRank] at hi <;> cases b <;> (try simp [isUA] at hua hub) <;> vp_simp
     all_goals
-      cases op <;> simp_all [six, Op.swap, strLt, strLtS, strEqS, PyR.map, trigQName, Op.isEqNe, Op.isOrd, isQN, isStr,
+      cases op <;> simp_all [six, Op.swap, strLt, strLtS, strEqS, PyR.map, Op.isEqNe, Op.isOrd, isQN, isStr,
         isUA, ymdOrd, durCmp4_dtd, iCmp, cmpBy]
     all_goals first
       | grind
